@@ -452,11 +452,18 @@ fn gen_case(rng: &mut Rng, base: &Context, n: usize) -> Case {
             tags.push(s.tag);
         } else {
             env.n = scratch.n;
+            if o.stage == "panic" {
+                // a crash may leave the probe half-updated: rebuild it from the accepted statements
+                probe = base.clone();
+                for st in &stmts {
+                    let _ = run_input(&mut probe, st);
+                }
+            }
         }
     }
     let mask: Vec<bool> = (0..stmts.len()).map(|_| rng.chance(2, 5)).collect();
     // two continuations from the same environment: the same fresh names get different definitions
-    let mut cont = |rng: &mut Rng, probe: &Context, env: &Env| -> Vec<String> {
+    let cont = |rng: &mut Rng, probe: &Context, env: &Env| -> Vec<String> {
         let mut p = probe.clone();
         let mut e = env.clone();
         let mut v = Vec::new();
